@@ -17,6 +17,7 @@ import json
 import random
 
 import vf
+import x07dc
 
 REGRESS = [  # cfg -> clause that must fail with that filter off
     ("MC_regress_noid.cfg", "ReplyMatches"),
@@ -132,6 +133,8 @@ def run(ctx, replay):
     if replay:
         with open(replay) as f:
             rp = json.load(f)["replay"]
+        if rp.get("driver") == "deleg":
+            return x07dc.replay_file(ctx, replay)
         sc = {"script": rp["script"], "replies": [], "victims": [], "dialled": [], "bankLog": [], "broken": []}
         res = ctx.go_driver("./c07", "TestBailiwickReplay",
                             {"scripts": [sc], "variants": [rp["variant"]], "minLevel": [rp.get("qname_min_level", 0)],
@@ -141,6 +144,8 @@ def run(ctx, replay):
         ctx.cov["states"] = ctx.cov["transitions"] = 1
         return
 
+    # X07DC: the provisional server set in the delegation cache while a delegation is still being assembled
+    x07dc.run_tier(ctx)
     models(ctx, thorough)
     single = emit(ctx, "Emit_1.cfg", 126)
     double = emit(ctx, "Emit_2.cfg", 126 * 126, workers=8)
